@@ -12,7 +12,8 @@
 //	(a) for the first front-end-rejected mutant of every (rule class, depth-1 context) pair - it
 //	    must exit != 0 and leave no file at the -o path;
 //	(b) for the mutants the front end does NOT reject: all of them at depth 0, and per class
-//	    (rule, form, chain) [depth 2: (rule, chain)] in order until one is confirmed as compiled.
+//	    (rule, form, chain) [depth 2: (rule, chain)] in order until one is confirmed as compiled
+//	    (at most three attempts per class).
 //
 // A mutant fails only when the real binary exits 0 or leaves a file at the -o path.  Three
 // outcomes are counted and not judged ("either"): the compiler crashes on the mutant and no
@@ -1053,12 +1054,18 @@ func Run(c *vl.Ctx) {
 	vl.ParDo(len(classes), 16, func(i int) {
 		k := classes[i]
 		witnessed := false
-		for _, j := range k.members {
+		for n, j := range k.members {
 			switch {
 			case witnessed:
 				c.Distinct(j.id)
 				c.Count("front_end_silent_class_already_witnessed", 1)
 				c.Outcome(j.rule + ": front end silent (class witnessed by an earlier member)")
+			case n >= 3:
+				// three members of the class went through the real binary and none was confirmed
+				// as compiled (back end cannot build the context / rejects late / crash)
+				c.Distinct(j.id)
+				c.Count("front_end_silent_class_not_confirmed_after_3_attempts", 1)
+				c.Outcome(j.rule + ": front end silent (class not confirmed by its first 3 members, not judged)")
 			case c.OverBudget():
 				capped = true
 				c.Count("mutants_left_unjudged_by_budget", 1)
